@@ -121,7 +121,10 @@ namespace TrRouting
                     {
                       inVehicleDistance += journeyStepTrip.path.segmentsDistanceMeters[seqI];
                     }
-                  totalDistance += inVehicleDistance;
+                  if (totalDistance != -1) // an earlier leg without distances made the total unknown: it stays unknown
+                    {
+                      totalDistance += inVehicleDistance;
+                    }
                   if (journeyStepTrip.line.mode.isTransferable())
                     {
                       totalWalkingDistance     += inVehicleDistance;
@@ -131,7 +134,10 @@ namespace TrRouting
                     }
                   else
                     {
-                      totalInVehicleDistance += inVehicleDistance;
+                      if (totalInVehicleDistance != -1)
+                        {
+                          totalInVehicleDistance += inVehicleDistance;
+                        }
                     }
                 }
               else
